@@ -16,7 +16,7 @@ LEVEL = "exploration"
 RULE = ("E1+E3: ('sig', curve, hash, encoding, canonise) = full product of 17 curves x {SHA-1,224,256,384,512} x {string, strings, DER} x canonise "
         "{no, yes}: a library signature made with seam entropy and a deterministic one verify in the library and in OpenSSL (dgst -verify); an "
         "OpenSSL signature verifies in the library; sign_deterministic == (r, s) of the RFC 6979 reference (pinned to RFC 6979 A.2.5 vectors); "
-        "verification under another key fails; ('tamper', curve, encoding, what, bit) EVERY single-bit change of an 8-byte message and of the "
+        "verification under another key fails; ('pre', curve, loader, lazy) keys obtained from every loader verify after precompute(); ('tamper', curve, encoding, what, bit) EVERY single-bit change of an 8-byte message and of the "
         "encoded signature (all bits on 5 curves quick / 17 thorough, one bit per byte on the rest) must raise BadSignatureError; ('range', curve, "
         "encoding, r-class, s-class) r, s in {0, n, n+1, 2^k, valid} must be rejected; ('malformed', curve, encoding, i) truncated / extended "
         "encodings raise the documented errors. Distinct = case tuples.")
@@ -95,6 +95,10 @@ def cases(ctx):
             for enc in ENCS:
                 for canon in (False, True):
                     yield ("sig", ci, h, enc, canon)
+    for ci in range(len(STD)):
+        for loader in ("generated", "from_string", "from_der", "from_pem", "from_public_point"):
+            for lazy in (True, False):
+                yield ("pre", ci, loader, lazy)
     for ci, cur in enumerate(STD):
         full = cur.name in FULL_TAMPER or not ctx.quick
         step = 1 if full else 8
@@ -182,6 +186,35 @@ def run_case(ctx, case):
                 return o.viol("verify|accepts-%s" % label, "%s: verification with %s gave %r" % (what, label, res))
         return o
     hf = hashlib.sha256
+    if kind == "pre":
+        _, ci, loader, lazy = case
+        base = sk.verifying_key
+        if loader == "generated":
+            k = SigningKey.from_secret_exponent(d, curve=cur).verifying_key
+        elif loader == "from_string":
+            k = VerifyingKey.from_string(base.to_string(), curve=cur)
+        elif loader == "from_der":
+            k = VerifyingKey.from_der(base.to_der())
+        elif loader == "from_pem":
+            k = VerifyingKey.from_pem(base.to_pem())
+        else:
+            from register_crypto_plugin.ecdsa import ellipticcurve as E
+            k = VerifyingKey.from_public_point(E.Point(cur.curve, Q[0], Q[1]), curve=cur)
+        sig = sk.sign_deterministic(MSG, hashfunc=hf)
+        try:
+            k.precompute(lazy=lazy)
+        except Exception as e:
+            return o.viol("precompute|raises|%s" % type(e).__name__, "%s: precompute(lazy=%s) on a key loaded by %s raised %r" % (cur.name, lazy, loader, e))
+        res = verify_outcome(k, sig, MSG, hf, U.sigdecode_string)
+        if res != "ok":
+            o.cls = "precomputed-key-fails"
+            kind_ = type(res[1]).__name__ if isinstance(res, tuple) else res
+            return o.viol("precompute|verify|%s" % kind_, "%s: a valid signature is not verified after precompute(lazy=%s) on a key loaded by %s: %r" % (
+                cur.name, lazy, loader, res))
+        res = verify_outcome(k, sig, MSG + b"!", hf, U.sigdecode_string)
+        if res != "bad":
+            return o.viol("precompute|accepts-forgery", "%s: precomputed key (%s) gives %r for a wrong message" % (cur.name, loader, res))
+        return o
     if kind == "tamper":
         _, ci, enc, target_, bit = case
         encf, decf = enc_fns(enc, False)
